@@ -874,6 +874,7 @@ type c03gen struct {
 	bigLits  bool
 	maxShift int
 	single   bool // debugging: one declaration per program
+	extreme  bool // floating-point magnitudes outside the float64 range (fragment streams)
 }
 
 func (g *c03gen) intLit() *cx {
@@ -2759,7 +2760,7 @@ func runC03(args []string) error {
 		nFrag, nFragFull = 60000, 30000
 	}
 	fst := c03fragStats{sm}
-	fg := &c03gen{r: c03Rng(*seed ^ 0x9e3779b97f4a7c15), floats: true, bigLits: true, maxShift: 210}
+	fg := &c03gen{r: c03Rng(*seed ^ 0x9e3779b97f4a7c15), floats: true, bigLits: true, maxShift: 210, extreme: true}
 	fcs := fg.c03FloatFrag(nFrag, 6, fst)
 	exacts := make([]*c03exact, len(fcs))
 	exErrs := make([]error, len(fcs))
@@ -2854,6 +2855,38 @@ func runC03(args []string) error {
 				if signedBitlenZone(v, t) {
 					region = "signed-bitlen"
 				}
+			}
+		}
+		// a negative constant that is not zero and rounds to zero in its floating-point destination
+		// (float64 for a printed untyped constant) becomes -0 in yaegi: region float-negzero
+		if !ex.Rejected && ex.Q != nil && ex.Q.Sign() < 0 {
+			dest := ""
+			switch {
+			case ref.Prog.Kind == "var":
+				dest = ref.Prog.VarT
+			case ref.Prog.E.K == "conv":
+				dest = ref.Prog.E.T
+			default:
+				dest = "float64"
+			}
+			zero := false
+			switch dest {
+			case "float64":
+				f, _ := ex.Q.Float64()
+				zero = f == 0
+			case "float32":
+				f, _ := ex.Q.Float32()
+				zero = f == 0
+			}
+			if zero {
+				region = "float-negzero"
+			}
+		}
+		if !ex.Rejected && ex.Q != nil && ex.Q.Sign() != 0 {
+			if f, _ := ex.Q.Float64(); f == 0 {
+				sm.count("frag:program-result:below-denormal")
+			} else if math.IsInf(f, 0) {
+				sm.count("frag:program-result:above-maxfloat64")
 			}
 		}
 		cases = append(cases, &c03case{Stream: stream, Prog: c.p, Src: c.src, Ref: ref, Region: region})
